@@ -7,21 +7,32 @@ CONSTANTS XMax, XShape
 \* ---- export of behaviours (binding C): sequences of evaluations of ONE object of the memo-free design
 VARIABLE hist
 XInit == HInit /\ hist = <<>>
-XNext == \/ \E w \in HWinIds : evald /\ HSetWin(w) /\ UNCHANGED hist
-         \/ HEval /\ hist' = Append(hist, [w |-> win, grid |-> [k \in 1..Len(out') |-> out'[k].wn]])
+XNext == \/ \E w \in HWinIds, e \in HEntries : evald /\ HSet(w, e) /\ UNCHANGED hist
+         \/ HEval /\ hist' = Append(hist, [w |-> win, e |-> entry, grid |-> [k \in 1..Len(out') |-> out'[k].wn],
+                                            parts |-> parts', refused |-> HFails(win)])
 XSpec == XInit /\ [][XNext]_<<hvars, hist>>
-XBound == Len(hist) <= XMax /\ ((XShape = "fullmiddle" /\ Len(hist) = 3) => hist[2].w = 0)
+\* (a behaviour that ends with a refused request has nothing left to judge)
+\* (shape "fullmiddle", quick tier: the sequences of 3 have the full grid through model() in the middle of two requests
+\* that an under-keyed memo confuses -- the ones the quick tier replays)
+XCollide == XSameSize \cup XSameFirst \cup XSameEnds
+XBound == /\ Len(hist) <= XMax /\ ((XShape = "fullmiddle" /\ Len(hist) = 3) => (hist[2].w = 0 /\ hist[2].e = "model"))
+          /\ ((XShape = "fullmiddle" /\ Len(hist) = 2 /\ ~evald) =>
+                  (hist[2].w = 0 /\ hist[2].e = "model" /\ <<hist[1].w, win>> \in XCollide))
+          /\ (Len(hist) = XMax => ~hist[XMax].refused)
 \* the native points inside the observation's own range (every restricted evaluation must at least compute these;
 \* how much more the clip keeps is the documented margin of Grid!GClip, which the statement does not prescribe)
 XInner(w) == IF ~HWins[w].cut THEN <<1, Len(HNat)>>
              ELSE LET oc == HWins[w].oc
                       I  == {i \in 1..Len(HNat) : HNat[i] >= oc[1] /\ HNat[i] <= oc[Len(oc)]}
                   IN  IF I = {} THEN <<0, 0>> ELSE <<GSetMin(I), GSetMax(I)>>
-XEmit == /\ (hist = <<>> /\ win = 0) =>
+XEmit == /\ (hist = <<>> /\ win = 0 /\ entry = "model") =>
               PrintT(<<"ALPHA", ToJson([alphabet |-> Alphabet, nat |-> HNat, mol |-> HMol, wins |-> HWins,
                                         clips |-> [w \in 1..Len(HWins) |-> <<HLo(w), HHi(w)>>],
                                         inner |-> [w \in 1..Len(HWins) |-> XInner(w)],
+                                        refused |-> {w \in HWinIds : HFails(w)},
+                                        contribs |-> [i \in DOMAIN HContribs |-> [name |-> HContribs[i], comps |-> HComps(HContribs[i])]],
+                                        parts |-> [e \in HEntries |-> HPartsOf(e, HAllContribs)],
                                         samesize |-> XSameSize, samefirst |-> XSameFirst, sameends |-> XSameEnds])>>)
-         /\ (evald /\ (Len(hist) = XMax \/ (XShape = "fullmiddle" /\ Len(hist) = 2 /\ hist[2].w # 0))) =>
+         /\ (evald /\ ~hist[Len(hist)].refused /\ (Len(hist) = XMax \/ (XShape = "fullmiddle" /\ Len(hist) = 2 /\ ~(hist[2].w = 0 /\ hist[2].e = "model")))) =>
               PrintT(<<"BEH", ToJson([alphabet |-> Alphabet, evals |-> hist])>>)
 =============================================================================
